@@ -1776,8 +1776,26 @@ class Parameter(_ParameterBase):
                       type='triggered' if (getattr(triggering, 'assigning', False) and name in triggering) else None)
 
         # Copy watchers here since they may be modified inplace during iteration
+        # (a depends(watch=True) method served by several internal watchers -
+        # the parameter itself and a path through it, say - still runs once
+        # for one assignment, as it does when a batch is flushed)
+        ran = []
         try:
             for watcher in sorted(watchers, key=lambda w: w.precedence):
+                fn = watcher.fn
+                if (isinstance(fn, partial) and fn.func in (_sync_caller, _async_caller)
+                        and not obj.param._BATCH_WATCH):
+                    method = fn.keywords['function']
+                    if any(method == m for m in ran):
+                        # only what else this watcher is there for
+                        # (setting up sub-object dependencies again)
+                        if fn.keywords.get('callback'):
+                            fn.keywords['callback'](event)
+                        continue
+                    if ((event.type == 'triggered' or not watcher.onlychanged or obj.param._changed(event))
+                            and not _skip_event(event, what=fn.keywords.get('what', 'value'),
+                                                changed=fn.keywords.get('changed'))):
+                        ran.append(method)
                 obj.param._call_watcher(watcher, event)
         finally:
             # also when a watcher raises: what queued callbacks assigned so
